@@ -68,7 +68,13 @@ MODS = [None, None, {"op": "extra_nested"}, {"op": "mo_aminusb"}, {"op": "gen_co
         {"op": "set", "attr": "energy", "value": -1.2345}, {"op": "set", "attr": "run_type", "value": "opt"},
         {"op": "set", "attr": "title", "value": "changed by the caller"}, {"op": "set", "attr": "lot", "value": "mp2"},
         {"op": "set", "attr": "obasis_name", "value": "cc-pvdz"}, {"op": "set", "attr": "g_rot", "value": 2.0},
-        {"op": "mo_aminusb_zero"}, {"op": "conv_signs"}, {"op": "conv_signs"}, {"op": "asym_noise"}, {"op": "asym_noise"}]
+        {"op": "mo_aminusb_zero"}, {"op": "conv_signs"}, {"op": "conv_signs"}, {"op": "asym_noise"}, {"op": "asym_noise"},
+        {"op": "known_extras"}, {"op": "known_extras"},
+        {"op": "gen_shell", "angmoms": [1, 0]}, {"op": "gen_shell", "angmoms": [0, 1]}, {"op": "gen_shell", "angmoms": [0, 0, 0]},
+        {"op": "gen_shell", "angmoms": [2, 1]}]
+# two mods at once (e.g. occs_aminusb together with the optional extras a writer looks for)
+MOD_PAIRS = [[{"op": "mo_aminusb"}, {"op": "known_extras"}], [{"op": "gen_contraction"}, {"op": "known_extras"}],
+             [{"op": "mo_aminusb"}, {"op": "gen_shell", "angmoms": [1, 0]}], [{"op": "conv_signs"}, {"op": "known_extras"}]]
 
 _GUARD = None
 
@@ -180,6 +186,16 @@ def check_written_file(data, call, disk, path, trace, stats=None):
         out.append(_v("written_file_changes_wfn", f"{call['fmt']}: nelec {n0} was written but the file reads back {n1}", trace, f"{call['fmt']}/nelec"))
     if call["fmt"] != "wfn" and s0 is not None and s1 is not None and abs(s0 - s1) > 1e-4:
         out.append(_v("written_file_changes_wfn", f"{call['fmt']}: spinpol {s0} was written but the file reads back {s1}", trace, f"{call['fmt']}/spinpol"))
+    # occupation of every orbital (formats that keep all orbitals in the given order)
+    if call["fmt"] in ("fchk", "molden", "molekel") and data.mo is not None and back.mo is not None and data.mo.kind != "generalized":
+        try:
+            a0, b0, a1, b1 = data.mo.occsa, data.mo.occsb, back.mo.occsa, back.mo.occsb
+        except NotImplementedError:
+            return out
+        if a0 is not None and a1 is not None and a0.shape == a1.shape and b0.shape == b1.shape:
+            if not (np.allclose(a0, a1, atol=1e-5) and np.allclose(b0, b1, atol=1e-5)):
+                out.append(_v("written_file_changes_wfn", f"{call['fmt']}: occupations alpha {list(a0)} beta {list(b0)} were written but the file reads back "
+                              f"alpha {list(a1)} beta {list(b1)}", trace, f"{call['fmt']}/occs"))
     return out
 
 
@@ -196,7 +212,11 @@ def do_call(data, call, disk, prefix):
         warnings.simplefilter("always")
         try:
             if fmt in ("gaussian", "orca"):
-                iodata.write_input(data, out, fmt)
+                kw = copy.deepcopy(call.get("input_kwargs") or {})
+                template = None
+                if kw.pop("_template", False):
+                    template = "{lot} {obasis_name} {title}\n{charge} {spinmult}\n{geometry}\n{extra}\n{atcharges}\n"
+                iodata.write_input(data, out, fmt, template=template, **kw)
                 res = data
             elif call.get("many"):
                 iodata.dump_many(iter([data, data]), out, fmt=fmt, allow_changes=call["allow_changes"])
@@ -335,11 +355,22 @@ def gen_trace(rng):
     recipe, fmts = rng.choice(OBJECTS)
     recipe = copy.deepcopy(recipe)
     mod = rng.choice(MODS)
-    if mod is not None and (mod["op"] in ("extra_nested", "title", "set", "asym_noise") or recipe["file"].endswith((".fchk", ".molden.input", ".mkl", ".wfn", ".wfx", ".molden"))):
+    wfn_like = recipe["file"].endswith((".fchk", ".molden.input", ".mkl", ".wfn", ".wfx", ".molden"))
+    if wfn_like and rng.random() < 0.12:
+        recipe["mods"] = copy.deepcopy(rng.choice(MOD_PAIRS))
+        mod = None
+    if mod is not None and (mod["op"] in ("extra_nested", "title", "set", "asym_noise", "known_extras") or recipe["file"].endswith((".fchk", ".molden.input", ".mkl", ".wfn", ".wfx", ".molden"))):
         recipe["mods"] = [mod]
     def call():
         fmt = rng.choice(fmts) if rng.random() < 0.85 else rng.choice(sorted(OUTNAME))
         c = {"fmt": fmt, "allow_changes": rng.random() < 0.5}
+        if fmt in ("gaussian", "orca") and rng.random() < 0.5:
+            # user fields for the template; some are dicts named like dict attributes of IOData
+            c["input_kwargs"] = rng.choice([
+                {"lot": "b3lyp"}, {"title": "user title", "obasis_name": "6-31g"},
+                {"_template": True, "extra": {"mem": "16GB", "nproc": 4}}, {"_template": True, "atcharges": {"esp": [0.1, -0.1]}},
+                {"_template": True, "extra": {"nested": {"alist": [9]}}, "atffparams": {"attypes": ["X"]}},
+            ])
         if fmt in ("xyz", "sdf", "mol2", "pdb") and rng.random() < 0.15:
             c["many"] = True
         return c
